@@ -169,9 +169,47 @@ class AlignInt(AbsInt):
                 return True
         return False
 
+    def round_up_ge(self, st, a, b, d):
+        x = b
+        while x[0] in ('wrap', 'cast'):
+            x = x[1]
+        if x[0] != 'bin' or x[1] != 'BitAnd':
+            return False
+        for s_, m_ in ((x[2], x[3]), (x[3], x[2])):
+            # m_ = !mask
+            if not (m_[0] == 'bin' and m_[1] == 'Sub' and m_[2][0] == 'c' and m_[2][1] in ((1 << 64) - 1, (1 << 32) - 1)):
+                continue
+            lo = self.low_ones(st, m_[3])
+            if lo is None:
+                continue
+            y = s_
+            while y[0] in ('wrap', 'cast'):
+                y = y[1]
+            if y[0] == 'bin' and y[1] == 'Add':
+                for p_, q_ in ((y[2], y[3]), (y[3], y[2])):
+                    lq = self.low_ones(st, q_)
+                    if lq is not None and lq == lo and (p_ == a or self.prove_le(st, a, p_, False, d + 3)):
+                        return True
+        return False
+
     # alignment facts from comparisons:  x & (size-1) == 0
     def assume(self, st, vn, truth, d=0):
         AbsInt.assume(self, st, vn, truth, d)
+        if vn[0] == 'cmp' and vn[1] in ('Lt', 'Gt', 'Le', 'Ge'):
+            op, a, c = vn[1], vn[2], vn[3]
+            if not truth:
+                op = {'Lt': 'Ge', 'Ge': 'Lt', 'Gt': 'Le', 'Le': 'Gt'}[op]
+            if op == 'Gt':
+                op, a, c = 'Lt', c, a
+            if op == 'Lt':
+                # a < c, both multiples of 2^t  =>  a + 2^t <= c
+                for t in (CL, L2S, RBS, BS):
+                    try:
+                        if self.is_mult(st, a, t) and self.is_mult(st, c, t):
+                            st.le.add(('le', self.mk_bin('Add', a, shl1(t)), c))
+                            break
+                    except RecursionError:
+                        break
         if vn[0] == 'cmp' and vn[1] in ('Eq', 'Ne') and ((vn[1] == 'Eq') == truth):
             a, c = vn[2], vn[3]
             if a == ('c', 0):
